@@ -211,7 +211,8 @@ func (e *endpoint) dispatch() (bool, *tcpip.Error) {
 	//如果比头部长度还小，直接丢弃
 	if n <= e.hdrSize {
 		log.Printf("@链路层 fdbased: read %d bytes < header bytest %d,比头部长度还小直接丢弃", n, e.hdrSize)
-		return false, nil
+		// Drop the frame and keep reading; only end-of-file ends the loop.
+		return n != 0, nil
 	}
 	var (
 		p                             tcpip.NetworkProtocolNumber
